@@ -93,6 +93,8 @@ func New[T any](
 		methodNotAllowed:   tree.methodNotAllowedBuilder(tree.node), // GET * 等非 OPTIONS 请求
 	}
 
+	tree.buildMethods(0) // OPTIONS * 的 Allow 报头，在未添加任何路由之前就应该包含 TRACE。
+
 	if lock {
 		tree.locker = &sync.RWMutex{}
 	}
